@@ -1,11 +1,349 @@
-//! Signature classification for genuine-defect classes found during triage.
-//! A detector looks at the Veryl source and the emitted SV of a mismatching
-//! design and returns a stable class key, so that one root cause is one known
-//! finding while any other divergence keeps a per-case signature and fails.
+//! Attribution of a C01 mismatch to a known defect class by *counterfactual
+//! neutralisation*: each class has a rewrite of the Veryl source that is
+//! semantics-preserving under IEEE 1800 / Veryl's documented semantics but
+//! avoids the defective code path.  If the rewritten design no longer
+//! mismatches (same configuration, same stimulus), the mismatch is attributed
+//! to that class and the violation signature is the class name — stable across
+//! seeds.  A mismatch no rewrite removes keeps a per-case signature and fails
+//! the check.
 
-/// Returns a class key when the design shows a known divergence class.
-pub fn classify(_veryl: &str, _sv: &str) -> Option<String> {
+pub struct Class {
+    pub name: &'static str,
+    pub rewrite: fn(&str) -> String,
+}
+
+/// `$signed(X)` / `$unsigned(X)` with a non-trivial argument → `$signed({X})`.  A one-element
+/// concatenation evaluates X self-determined, exactly like the argument of a sign function
+/// (IEEE 1800-2017 11.8.1, 20.6.1... the argument is self-determined), so the rewrite is an identity
+/// in SystemVerilog; in the Veryl interpreter it keeps the sign function from overwriting the
+/// signedness of the operator node inside.
+pub fn wrap_sign_function_argument(text: &str) -> String {
+    let mut out = String::with_capacity(text.len() + 16);
+    let b = text.as_bytes();
+    let mut i = 0;
+    let mut close_at: Vec<usize> = vec![];
+    while i < b.len() {
+        let rest = &text[i..];
+        let kw = if rest.starts_with("$signed(") {
+            Some(8)
+        } else if rest.starts_with("$unsigned(") {
+            Some(10)
+        } else {
+            None
+        };
+        if let Some(k) = kw {
+            // find the matching parenthesis
+            let start = i + k;
+            let mut depth = 1;
+            let mut j = start;
+            while j < b.len() && depth > 0 {
+                match b[j] {
+                    b'(' => depth += 1,
+                    b')' => depth -= 1,
+                    _ => {}
+                }
+                j += 1;
+            }
+            let inner = text[start..j - 1].trim();
+            let simple = !inner.is_empty() && inner.chars().all(|c| c.is_ascii_alphanumeric() || c == '_' || c == '[' || c == ']' || c == ':' || c == '+');
+            let already = inner.starts_with('{') && inner.ends_with('}');
+            out.push_str(&text[i..start]);
+            if depth == 0 && !simple && !already {
+                out.push('{');
+                close_at.push(j - 1);
+            }
+            i = start;
+            continue;
+        }
+        if close_at.last() == Some(&i) {
+            close_at.pop();
+            out.push('}');
+        }
+        let ch = text[i..].chars().next().unwrap();
+        out.push(ch);
+        i += ch.len_utf8();
+    }
+    out
+}
+
+fn matching_paren(b: &[u8], open: usize) -> Option<usize> {
+    let mut depth = 0i32;
+    let mut j = open;
+    while j < b.len() {
+        match b[j] {
+            b'(' | b'{' | b'[' => depth += 1,
+            b')' | b'}' | b']' => {
+                depth -= 1;
+                if depth == 0 {
+                    return Some(j);
+                }
+            }
+            _ => {}
+        }
+        j += 1;
+    }
     None
+}
+
+/// Every comparison group `( … ==|!=|<:|<=|>:|>= … )` → `$unsigned(( … ))`: a comparison result is
+/// 1-bit unsigned in IEEE 1800 (11.8.1), so this is an identity in SystemVerilog.
+pub fn wrap_comparisons_unsigned(text: &str) -> String {
+    wrap_groups(text, &[" <: ", " <= ", " >: ", " >= ", " == ", " != "], "$unsigned(")
+}
+
+/// The condition group of every if-expression `(if (C) ? …` → `(if $signed((C)) ? …`: only the truth
+/// value of a condition matters, so this is an identity in SystemVerilog.
+pub fn wrap_ternary_conditions_signed(text: &str) -> String {
+    let b = text.as_bytes();
+    let mut out = String::with_capacity(text.len() + 32);
+    let mut i = 0;
+    let mut close_at: Vec<usize> = vec![];
+    while i < b.len() {
+        if text[i..].starts_with("(if (") || text[i..].starts_with("= if (") {
+            let open = i + text[i..].find("if (").unwrap() + 3;
+            if let Some(c) = matching_paren(b, open) {
+                out.push_str(&text[i..open]);
+                out.push_str("$signed(");
+                close_at.push(c);
+                i = open;
+                continue;
+            }
+        }
+        let ch = text[i..].chars().next().unwrap();
+        out.push(ch);
+        if close_at.contains(&i) {
+            out.push(')');
+        }
+        i += ch.len_utf8();
+    }
+    out
+}
+
+fn wrap_groups(text: &str, ops: &[&str], prefix: &str) -> String {
+    let b = text.as_bytes();
+    let mut stack: Vec<(usize, bool)> = vec![];
+    let mut groups: Vec<(usize, usize)> = vec![];
+    for i in 0..b.len() {
+        match b[i] {
+            b'(' => stack.push((i, false)),
+            b')' => {
+                if let Some((s, rel)) = stack.pop()
+                    && rel
+                {
+                    groups.push((s, i));
+                }
+            }
+            b' ' => {
+                let rest = &text[i..];
+                if ops.iter().any(|o| rest.starts_with(o))
+                    && let Some(top) = stack.last_mut()
+                {
+                    top.1 = true;
+                }
+            }
+            _ => {}
+        }
+    }
+    if groups.is_empty() {
+        return text.to_string();
+    }
+    let mut open_at: Vec<usize> = groups.iter().map(|g| g.0).collect();
+    let mut close_at: Vec<usize> = groups.iter().map(|g| g.1).collect();
+    open_at.sort();
+    close_at.sort();
+    let mut out = String::with_capacity(text.len() + groups.len() * 12);
+    for (k, c) in text.char_indices() {
+        if open_at.binary_search(&k).is_ok() {
+            out.push_str(prefix);
+        }
+        out.push(c);
+        if close_at.binary_search(&k).is_ok() {
+            out.push(')');
+        }
+    }
+    out
+}
+
+/// Function-call arguments `Pkg::fnN(e0, e1, …)` → `Pkg::fnN(((e0) as W0), …)` with Wk the declared
+/// width of the formal: `W'(e)` evaluates e exactly as the assignment to the W-bit formal does
+/// (IEEE 1800-2017 6.24.1 / 13.5), so this is an identity in SystemVerilog.
+pub fn cast_function_arguments(text: &str) -> String {
+    // formal widths from the declarations: `function fnN (` … `aK: input [signed] logic[<W>],`
+    let mut widths: std::collections::HashMap<String, Vec<usize>> = Default::default();
+    let mut cur: Option<String> = None;
+    for l in text.lines() {
+        let t = l.trim();
+        if let Some(rest) = t.strip_prefix("function ") {
+            let name: String = rest.chars().take_while(|c| c.is_alphanumeric() || *c == '_').collect();
+            widths.insert(name.clone(), vec![]);
+            cur = Some(name);
+        } else if t.starts_with(") ->") || t.starts_with(") {") {
+            cur = None;
+        } else if let (Some(f), true) = (&cur, t.contains(": input ")) {
+            let w = t.split_once('<').and_then(|(_, r)| r.split_once('>')).and_then(|(w, _)| w.trim().parse::<usize>().ok()).unwrap_or(1);
+            widths.get_mut(f).unwrap().push(w);
+        }
+    }
+    let b = text.as_bytes();
+    let mut out = String::with_capacity(text.len() + 64);
+    let mut i = 0;
+    while i < b.len() {
+        let rest = &text[i..];
+        let mut hit = None;
+        for (name, ws) in &widths {
+            let pat = format!("Pkg::{name}(");
+            if rest.starts_with(&pat) {
+                hit = Some((pat.len(), ws.clone()));
+            }
+        }
+        if let Some((plen, ws)) = hit {
+            let open = i + plen - 1;
+            if let Some(close) = matching_paren(b, open) {
+                // split the arguments at top-level commas
+                let inner = &text[open + 1..close];
+                let mut args: Vec<String> = vec![];
+                let (mut depth, mut start) = (0i32, 0usize);
+                for (k, c) in inner.char_indices() {
+                    match c {
+                        '(' | '{' | '[' => depth += 1,
+                        ')' | '}' | ']' => depth -= 1,
+                        ',' if depth == 0 => {
+                            args.push(inner[start..k].to_string());
+                            start = k + 1;
+                        }
+                        _ => {}
+                    }
+                }
+                args.push(inner[start..].to_string());
+                if args.len() == ws.len() {
+                    out.push_str(&text[i..open + 1]);
+                    let wrapped: Vec<String> = args.iter().zip(ws.iter()).map(|(a, w)| format!("(({}) as {w})", cast_function_arguments_inner(a.trim(), &widths))).collect();
+                    out.push_str(&wrapped.join(", "));
+                    out.push(')');
+                    i = close + 1;
+                    continue;
+                }
+            }
+        }
+        let ch = rest.chars().next().unwrap();
+        out.push(ch);
+        i += ch.len_utf8();
+    }
+    out
+}
+
+fn cast_function_arguments_inner(arg: &str, _w: &std::collections::HashMap<String, Vec<usize>>) -> String {
+    // DesignGen never nests calls inside call arguments (functions see no other functions) — keep as is
+    arg.to_string()
+}
+
+/// `assign c = a[ix % n];` (dynamic read of an unpacked array driven element-wise) →
+/// a chain of if-expressions over constant indices (the index is in range by construction).
+pub fn static_array_read(text: &str) -> String {
+    let mut out = String::with_capacity(text.len() + 64);
+    for l in text.lines() {
+        let t = l.trim();
+        let mut done = false;
+        if let Some(rest) = t.strip_prefix("assign ")
+            && let Some((lhs, rhs)) = rest.split_once(" = ")
+            && let Some(rhs) = rhs.strip_suffix("];")
+            && let Some((arr, idx)) = rhs.split_once('[')
+            && let Some((ix, n)) = idx.split_once(" % ")
+            && let Ok(n) = n.trim().parse::<usize>()
+            && arr.chars().all(|c| c.is_alphanumeric() || c == '_')
+            && ix.chars().all(|c| c.is_alphanumeric() || c == '_')
+            && n >= 1
+        {
+            let mut e = format!("{arr}[{}]", n - 1);
+            for k in (0..n - 1).rev() {
+                e = format!("(if (({ix} % {n}) == {k}) ? {arr}[{k}] : {e})");
+            }
+            let indent: String = l.chars().take_while(|c| c.is_whitespace()).collect();
+            out.push_str(&format!("{indent}assign {lhs} = {e};"));
+            done = true;
+        }
+        if !done {
+            out.push_str(l);
+        }
+        out.push('\n');
+    }
+    out
+}
+
+/// `for k in [rev] 0..n { T[k] = ~T[k]; if k == B { break; } }` → the same loop over exactly the
+/// iterations that execute, without `break`.
+pub fn unroll_break_loops(text: &str) -> String {
+    let lines: Vec<&str> = text.lines().collect();
+    let mut out = String::with_capacity(text.len());
+    let mut i = 0;
+    while i < lines.len() {
+        let t = lines[i].trim();
+        if let Some(rest) = t.strip_prefix("for ")
+            && i + 5 < lines.len()
+            && lines[i + 3].trim() == "break;"
+            && lines[i + 4].trim() == "}"
+            && lines[i + 5].trim() == "}"
+            && let Some((var, range)) = rest.split_once(" in ")
+            && let Some(range) = range.strip_suffix(" {")
+            && let Some(cond) = lines[i + 2].trim().strip_prefix(&format!("if {var} == "))
+            && let Some(bs) = cond.strip_suffix(" {")
+            && let Ok(bv) = bs.trim().parse::<usize>()
+        {
+            let indent: String = lines[i].chars().take_while(|c| c.is_whitespace()).collect();
+            let (rev, r) = match range.strip_prefix("rev ") {
+                Some(r) => (true, r),
+                None => (false, range),
+            };
+            if let Some((lo, hi)) = r.split_once("..")
+                && let (Ok(lo), Ok(hi)) = (lo.trim().parse::<usize>(), hi.trim().parse::<usize>())
+                && bv >= lo
+                && bv < hi
+            {
+                let hdr = if rev { format!("{indent}for {var} in rev {bv}..{hi} {{") } else { format!("{indent}for {var} in {lo}..{} {{", bv + 1) };
+                out.push_str(&hdr);
+                out.push('\n');
+                out.push_str(lines[i + 1]);
+                out.push('\n');
+                out.push_str(&format!("{indent}}}\n"));
+                i += 6;
+                continue;
+            }
+        }
+        out.push_str(lines[i]);
+        out.push('\n');
+        i += 1;
+    }
+    out
+}
+
+pub fn classes() -> Vec<Class> {
+    vec![
+        Class { name: "sign-function-overrides-inner-operator-signedness", rewrite: wrap_sign_function_argument },
+        Class { name: "function-argument-expression-not-extended-to-formal", rewrite: cast_function_arguments },
+        Class { name: "stale-dynamic-read-of-assign-driven-array", rewrite: static_array_read },
+        Class { name: "for-break-in-always_ff-keeps-last-iteration-only", rewrite: unroll_break_loops },
+        Class { name: "expression-type-signedness-cloned-from-first-operand", rewrite: wrap_comparisons_unsigned },
+        Class { name: "expression-type-signedness-cloned-from-first-operand", rewrite: wrap_ternary_conditions_signed },
+    ]
+}
+
+#[cfg(test)]
+mod tests {
+    #[test]
+    fn others() {
+        assert_eq!(super::wrap_comparisons_unsigned("x = ((a <: b) + (c));"), "x = ($unsigned((a <: b)) + (c));");
+        assert_eq!(super::wrap_ternary_conditions_signed("x = (if (a != 0) ? b : c);"), "x = (if $signed((a != 0)) ? b : c);");
+        assert_eq!(super::static_array_read("    assign c3 = a3[i2 % 3];\n"), "    assign c3 = (if ((i2 % 3) == 0) ? a3[0] : (if ((i2 % 3) == 1) ? a3[1] : a3[2]));\n");
+        let f = "    function fn0 (\n        a0: input logic<3>,\n        a1: input signed logic<18>,\n    ) -> logic<19> {\n    }\n    assign o = Pkg::fn0((0), (i0 <<< c4));\n";
+        assert!(super::cast_function_arguments(f).contains("Pkg::fn0((((0)) as 3), (((i0 <<< c4)) as 18))"));
+        let l = "        for k2 in 0..5 {\n            r1[k2] = ~r1[k2];\n            if k2 == 2 {\n                break;\n            }\n        }\n";
+        assert_eq!(super::unroll_break_loops(l), "        for k2 in 0..3 {\n            r1[k2] = ~r1[k2];\n        }\n");
+    }
+
+    #[test]
+    fn wrap() {
+        assert_eq!(super::wrap_sign_function_argument("a = $signed((x >: y)) + $unsigned(z) + $signed($unsigned((p + q)));"), "a = $signed({(x >: y)}) + $unsigned(z) + $signed({$unsigned({(p + q)})});");
+    }
 }
 
 /// Stable class of an sv-parser rejection: the token text at the reported
@@ -18,7 +356,7 @@ pub fn gate_class(detail: &str, sv: &str) -> String {
         .filter_map(|s| s.parse::<usize>().ok())
         .next_back();
     match pos {
-        Some(p) if p < sv.len() => {
+        Some(p) if p < sv.len() && sv.is_char_boundary(p) => {
             let rest = &sv[p..];
             let w: String = rest.chars().take_while(|c| !c.is_whitespace()).take(24).collect();
             format!("near:{w}")
